@@ -12,7 +12,9 @@ import contextlib
 
 from vf import core
 
-CACHE_DIR = os.path.join(core.VERIF, ".cache")
+# the parse cache is keyed by a hash of the grammar and of the parser construction code, so it can be
+# shared between /verif and background snapshots of it
+CACHE_DIR = os.environ.get("VERIF_CACHE", "/verif/.cache")
 
 _COMPILERS = {}
 
